@@ -157,13 +157,13 @@ pub open spec fn pmap_matches(m: Map<BinaryIds, F64>, a: Map<BinaryIds, real>) -
     &&& forall|k: BinaryIds| m.contains_key(k) ==> (#[trigger] m[k])@ == XR::Fin(a[k])
 }
 // product of 0/1 values over a set: 1 when every variable of the set is 1, else 0
-pub open spec fn pw(k: BinaryIds, x: Map<u64, F64>) -> real { if forall|i: u64| k.0@.contains(i) ==> sval(x, i) == 1real { 1real } else { 0real } }
+pub open spec fn pbw(k: BinaryIds, x: Map<u64, F64>) -> real { if forall|i: u64| k.0@.contains(i) ==> sval(x, i) == 1real { 1real } else { 0real } }
 pub open spec fn psum(a: Map<BinaryIds, real>, x: Map<u64, F64>) -> real decreases a.dom().len() {
-    if a.dom().len() == 0 { 0real } else { let k = a.dom().choose(); a[k] * pw(k, x) + psum(a.remove(k), x) }
+    if a.dom().len() == 0 { 0real } else { let k = a.dom().choose(); a[k] * pbw(k, x) + psum(a.remove(k), x) }
 }
 pub proof fn lemma_psum_remove(a: Map<BinaryIds, real>, x: Map<u64, F64>, k: BinaryIds)
     requires a.contains_key(k)
-    ensures psum(a, x) == a[k] * pw(k, x) + psum(a.remove(k), x)
+    ensures psum(a, x) == a[k] * pbw(k, x) + psum(a.remove(k), x)
     decreases a.dom().len()
 {
     let c = a.dom().choose();
@@ -179,7 +179,7 @@ pub proof fn lemma_psum_remove(a: Map<BinaryIds, real>, x: Map<u64, F64>, k: Bin
     }
 }
 pub proof fn lemma_psum_insert(a: Map<BinaryIds, real>, x: Map<u64, F64>, k: BinaryIds, v: real)
-    ensures psum(a.insert(k, v), x) == (if a.contains_key(k) { psum(a, x) - a[k] * pw(k, x) } else { psum(a, x) }) + v * pw(k, x)
+    ensures psum(a.insert(k, v), x) == (if a.contains_key(k) { psum(a, x) - a[k] * pbw(k, x) } else { psum(a, x) }) + v * pbw(k, x)
 {
     let a2 = a.insert(k, v);
     lemma_psum_remove(a2, x, k);
@@ -205,7 +205,7 @@ pub proof fn lemma_binary_prod(c: real, ids: Seq<u64>, j: int, x: Map<u64, F64>)
 }
 pub proof fn lemma_binary_set(c: real, ids: Seq<u64>, x: Map<u64, F64>)
     requires binary_on(x, ids)
-    ensures mono_val(c, ids, ids.len() as int, x) == c * pw(bkey(ids), x)
+    ensures mono_val(c, ids, ids.len() as int, x) == c * pbw(bkey(ids), x)
 {
     broadcast use ax_bkey;
     lemma_binary_prod(c, ids, ids.len() as int, x);
@@ -227,7 +227,7 @@ pub open spec fn prem(t: Seq<(SortedIds, F64)>, n: int, x: Map<u64, F64>) -> rea
         prem(t, n - 1, x) + (
             if !q_kept(c) { mono_val(rv(c), ids, ids.len() as int, x) }
             else { let key = bkey(ids); let v = if prev.contains_key(key) { prev[key] + rv(c) } else { rv(c) };
-                   if rabs(v) < eps_real() { v * pw(key, x) } else { 0real } })
+                   if rabs(v) < eps_real() { v * pbw(key, x) } else { 0real } })
     }
 }
 // THE PROPERTY (PUBO half): sum_S c_S prod_{i in S} x_i = objective(x) on every 0/1 assignment, minus the explicit remainder
@@ -243,7 +243,7 @@ pub proof fn lemma_pubo_value(t: Seq<(SortedIds, F64)>, n: int, x: Map<u64, F64>
             lemma_binary_set(rv(c), ids, x);
             let key = bkey(ids);
             let v = if prev.contains_key(key) { prev[key] + rv(c) } else { rv(c) };
-            let w = pw(key, x);
+            let w = pbw(key, x);
             if prev.contains_key(key) { assert((prev[key] + rv(c)) * w == prev[key] * w + rv(c) * w) by(nonlinear_arith); }
             if rabs(v) < eps_real() {
                 if prev.contains_key(key) { lemma_psum_remove(prev, x, key); } else { assert(prev.remove(key) =~= prev); }
